@@ -256,15 +256,8 @@ Fixpoint increasing (l : list N) : bool :=
   match l with a :: (b :: _) as t => (a <? b) && increasing t | _ => true end.
 (* D02 (the live import items of a space, in index-space order, were not in import-section order) is repaired: the
    import section is emitted in index order; the class is gone.  [increasing] is still used by Proofs/ReidxInv.v. *)
-Definition moved (c : rcase) (x : sp) (id : N) : bool :=
-  negb (optN_eqb (lookup (snd (ispace c x)) id) (Some id)).
-(* D05 (and formerly D03, repaired: global exports are re-indexed now): a copied (never re-indexed) reference
-   whose target moves or is deleted *)
-Definition known_copied (k : rk) (x : sp) (c : rcase) : bool :=
-  existsb (fun r => match rs_k r, rk_code k with
-                    | k', kc => N.eqb (rk_code k') kc && sp_eqb (rs_sp r) x && moved c x (rs_id r)
-                    end) (sites c).
-Definition known_D05 := known_copied KElemExpr SF.
+(* D05 (the `ref.func` expression items of element segments - and element offsets, table initialisers - were copied,
+   never re-indexed) is repaired: they go through the id maps like every other reference; the class is gone. *)
 (* D06 (a deleted added / converted import stayed in the index space) and D26 (a deleted converted original import
    stayed among the locals) are repaired: recalculate_ids drops every deleted item; the classes are gone. *)
 (* D07 (replace_import_in_module used the ImportsID as the FunctionID) is repaired: the function is resolved
@@ -289,25 +282,25 @@ Definition binds_ok (x : sp) (c : rcase) : bool := sites_bound c x && valid_ok c
 
 Definition verdict06 (c : rcase) : Util.verdict :=
   (agree c, in_domain c && has_site c SF, binds_ok SF c && live_exact c SF,
-   cls c [K 5 known_D05]).
+   cls c []).
 Definition verdict07 (c : rcase) : Util.verdict :=
   (agree c, in_domain c && has_site c SG, binds_ok SG c && live_exact c SG,
-   cls c [K 5 known_D05]).
+   cls c []).
 Definition verdict08 (c : rcase) : Util.verdict :=
   (agree c, in_domain c && has_site c SM, binds_ok SM c && live_exact c SM,
-   cls c [K 5 known_D05]).
+   cls c []).
 Definition is_delete o := match o with Delete _ _ | DeleteExport _ => true | _ => false end.
 Definition verdict09 (c : rcase) : Util.verdict :=
   (agree c, in_domain c && hist_has c is_delete,
    forallb (fun x => sites_bound c x && live_exact c x) [SF; SG; SM] && valid_ok c && negb (ss_coll (spec_final c)),
-   cls c [K 5 known_D05]).
+   cls c []).
 Definition verdict10 (c : rcase) : Util.verdict :=
   (agree c, in_domain c && hist_has c is_i2l, binds_ok SF c && live_exact c SF,
-   cls c [K 5 known_D05]).
+   cls c []).
 Definition is_l2i o := match o with LocalToImport _ _ => true | _ => false end.
 Definition verdict11 (c : rcase) : Util.verdict :=
   (agree c, in_domain c && hist_has c is_l2i, binds_ok SF c && live_exact c SF,
-   cls c [K 5 known_D05]).
+   cls c []).
 Definition verdict05 (c : rcase) : Util.verdict :=
   (agree c, negb (o_api_panic c) && encoded c, o_same2 c, cls c [K 1 known_D01]).
 
